@@ -92,6 +92,8 @@ fn grad_sources() -> Vec<SrcSpec> {
         SrcSpec::Radial { stops: ramp.clone(), spread: Spr::Reflect, p: [6., 2., 5.] },
         SrcSpec::TwoCircle { stops: ramp.clone(), spread: Spr::Repeat, p: [6., 2., 1., 6.5, 2., 6.] },
         SrcSpec::Sweep { stops: ramp, spread: Spr::Pad, p: [6., 2., 0., 360.] },
+        SrcSpec::Sweep { stops: vec![Stop { pos: 0.3, color: 0x40ff8000 }], spread: Spr::Pad, p: [6., 2., 0., 360.] },
+        SrcSpec::TwoCircle { stops: vec![Stop { pos: 1.0, color: 0x40ff8000 }], spread: Spr::Pad, p: [6., 2., 1., 6.5, 2., 6.] },
         SrcSpec::Image { w: 3, h: 2, data: image_of(3, 2, &VALS12, 0), repeat: true, bilinear: true, xf: [0.4, 0.1, -0.1, 0.6, 0.3, 0.2] },
         SrcSpec::Image { w: 3, h: 2, data: image_of(3, 2, &VALS12, 5), repeat: false, bilinear: true, xf: [1.7, 0., 0., 0.8, -2.5, 0.5] },
     ]
@@ -192,7 +194,7 @@ impl Check for C18 {
             }
         });
         // (1b) sources whose channels equal their alpha, every level x every global alpha byte x every shader family
-        run.bound("alpha sweep", "256 levels (c = a) x 256 global alpha bytes x {solid, 1x1 image via the integer-translation shader, 1x1 image via the bilinear and nearest shaders, constant gradient} x {Src on transparent, SrcOver on white}".to_string());
+        run.bound("alpha sweep", "256 levels (c = a) x 256 global alpha bytes x {solid, 1x1 image via the integer-translation shader, 1x1 image via the bilinear and nearest shaders, constant two-stop gradient, single-stop linear and radial gradients} x {Src on transparent, SrcOver on white}".to_string());
         run.par(256, |v, l| {
             let v = v as u32;
             let c = (v << 24) | (v << 16) | (v << 8) | v;
@@ -203,6 +205,9 @@ impl Check for C18 {
                 SrcSpec::Image { w: 1, h: 1, data: vec![c], repeat: true, bilinear: true, xf: [0.5, 0., 0., 0.5, 0.25, 0.25] },
                 SrcSpec::Image { w: 1, h: 1, data: vec![c], repeat: false, bilinear: false, xf: [0.5, 0., 0., 0.5, 0.25, 0.25] },
                 SrcSpec::Linear { stops: vec![Stop { pos: 0.0, color: un }, Stop { pos: 1.0, color: un }], spread: Spr::Pad, p: [0., 0., 2., 0.] },
+                // single-stop gradients (any shortcut for them must still premultiply)
+                SrcSpec::Linear { stops: vec![Stop { pos: 0.5, color: un }], spread: Spr::Repeat, p: [0., 0., 2., 0.] },
+                SrcSpec::Radial { stops: vec![Stop { pos: 0.0, color: un }], spread: Spr::Pad, p: [1., 0.5, 3.] },
             ];
             for k in 0..256u32 {
                 let alpha = k as f32 / 255.0;
